@@ -67,6 +67,11 @@ def run(ctx):
             for c2 in ctx.closures_of(pred):
                 r2 = ctx.ret_values(c2)
                 inner_ok = inner_ok and r2 == ["a2"]
+            if not (val and inner_ok):
+                # the same test written as a pattern: `matches!(v.word, Some(w) if *w)`
+                tc = ctx.true_conditions(pred)
+                pat_ok = len(tc) == 1 and any(re.match(r"^is_some\(\(?a2\)?\.word\)=True$", a) for a in tc[0]) and any(re.match(r"^\(\(?a2\)?\.word as Some\)\.0(\.value)?=True$", a) for a in tc[0]) and len(tc[0]) == 2
+                val, inner_ok = pat_ok, pat_ok
             ctx.ob("C09.G.word-variant-by-value", f.key, "bare-word variant predicate tests the boolean value of `word`", val and inner_ok,
                    "predicate returns %s (inner closures %s): a variant with `word = false` must not become the bare-word value" % (rs, [ctx.ret_values(c2) for c2 in ctx.closures_of(pred)]))
         ctx.ob("C09.G.word-variant-not-skipped", f.key, "bare-word variant predicate reads `skip`", "skip" in reads,
